@@ -33,6 +33,11 @@ struct Ctx<'a> { rng: &'a mut Rng, pool: &'a Pool, opt_counter: usize, seq_count
 /// (chunk, sequence-occurrence path)
 type Placed = (Chunk, Vec<usize>);
 
+thread_local! {
+    /// the directed contents of `run` (look-alikes and boundary values), used by the `Lookalike` pick
+    static DIRECTED: std::cell::RefCell<Vec<String>> = std::cell::RefCell::new(Vec::new());
+}
+
 fn content_for(ctx: &mut Ctx, tag: &str) -> String {
     match ctx.pool.by_tag.get(tag) {
         None => "X".to_string(),
@@ -42,7 +47,7 @@ fn content_for(ctx: &mut Ctx, tag: &str) -> String {
             Pick::Longest => { let m = v.iter().map(|c| c.chars().count()).max().unwrap_or(0); let c: Vec<&String> = v.iter().filter(|c| c.chars().count() == m).collect(); (*ctx.rng.pick(&c)).clone() }
             // contents whose shape belongs to another option of the family (see the directed list in `run`)
             Pick::Lookalike => {
-                let c: Vec<&String> = v.iter().filter(|c| ["ACMECORP", "/12345678\nDEUTSCHBANK", "1/2 PRICE STORES LTD", "/ACC123\n1/NAME ONLY\n2/STREET", "DEUTDEFF", "/12345678", "CHASUS33", "12345678CHASUS33"].contains(&c.as_str())).collect();
+                let c: Vec<&String> = v.iter().filter(|c| DIRECTED.with(|d| d.borrow().contains(*c))).collect();
                 if c.is_empty() { ctx.rng.pick(v).clone() } else { (*ctx.rng.pick(&c)).clone() }
             }
             Pick::Shortest => { let m = v.iter().map(|c| c.chars().count()).min().unwrap_or(0); let c: Vec<&String> = v.iter().filter(|c| c.chars().count() == m).collect(); (*ctx.rng.pick(&c)).clone() }
@@ -260,11 +265,18 @@ pub fn run(o: &Opts) -> Report {
     // letter-less members of option families whose content also has the shape of another option (a name line that looks
     // like a BIC or like a numbered line): the tag, not the content, decides the variant
     for (t, c) in [("59", "ACMECORP"), ("59", "/12345678\nDEUTSCHBANK"), ("59", "1/2 PRICE STORES LTD"), ("59", "/ACC123\n1/NAME ONLY\n2/STREET"),
-                   ("50", "DEUTDEFF"), ("50", "/12345678"), ("25", "CHASUS33"), ("25", "12345678CHASUS33")] {
+                   ("50", "DEUTDEFF"), ("50", "/12345678"), ("25", "CHASUS33"), ("25", "12345678CHASUS33"),
+                   // boundary values of components: UTC offsets at both ends and signs, a statement line whose supplementary
+                   // details contain the reference separator, midnight / end-of-day times, month ends
+                   ("13C", "/CLSTIME/0915-1300"), ("13C", "/SNDTIME/1200-1359"), ("13C", "/RNCTIME/2359+1400"), ("13C", "/CLSTIME/0000+1459"), ("13C", "/SNDTIME/0000-0000"),
+                   ("13D", "2403151200-1300"), ("13D", "2402292359+1459"), ("13D", "0001010000-1359"),
+                   ("61", "2412311231C250,00NTRFCUSTREF0001\nSEE HTTP//BANK.EXAMPLE/ADV"), ("61", "240229D0,01NMSC//B"), ("61", "2402290301RCA123456789012,45S999NONREF//1234567890123456\n/X//Y/"),
+                   ("30", "240229"), ("30", "000229"), ("30", "491231"), ("30", "500101")] {
         let v = pool.by_tag.entry(t.to_string()).or_default();
         if !v.contains(&c.to_string()) {
             v.push(c.to_string());
         }
+        DIRECTED.with(|d| d.borrow_mut().push(c.to_string()));
     }
     // "each field in the library's own canonical spelling": every pool content is replaced by what the field's own
     // serialiser writes for it, and kept only when that spelling is a fixed point at field level (anything else is a
